@@ -2,11 +2,13 @@
 //! one canonical result line per case.
 mod asyncsrc;
 mod chain;
+mod conc;
 mod convert;
 mod finalize;
 mod flatten;
 mod group;
 mod indep;
+mod locks;
 mod probe;
 mod retire;
 mod sexp;
@@ -38,6 +40,9 @@ fn run_case(case: &Sexp) -> String {
     "atform" => timed::run_atform(body),
     "subalg" => subalg::run_subalg(body),
     "retire" => retire::run_retire(body),
+    "conc" => conc::run_conc(body),
+    "sched_race" => conc::run_sched_race(body),
+    "locks" => locks::run_locks(body),
     "tofuture" => convert::run_tofuture(body),
     "tostream" => convert::run_tostream(body),
     "status" => convert::run_status(body),
